@@ -16,11 +16,14 @@ if os.path.exists(p):
         old[(k['property'], k['class'])] = k
 findings = [k for k in old.values() if k['property'] not in props]
 for prop in props:
+    if only and prop not in only:
+        findings += [k for (pp, _), k in old.items() if pp == prop]
+        continue
     for cls in owners[prop]:
         wit = w.get(prop, {}).get(cls)
         prev = old.get((prop, cls))
-        if prev and prev.get('status') == 'fixed':
-            findings.append(prev); continue
+        if prev and (prev.get('status') == 'fixed' or prev.get('witness', {}).get('pinned')):
+            findings.append(prev); continue          # fixed entries and hand-written (pinned) witnesses are kept
         if wit is None:
             if prev: findings.append(prev); print('kept old witness for', prop, cls, file=sys.stderr)
             else: print('NO WITNESS for', prop, cls, file=sys.stderr)
